@@ -467,3 +467,7 @@ def run(facts, rep, tier):
              "characters out of a heading's text).")
     from . import reader_opts
     reader_opts.rule_reader_options(facts, rep, "C07-R7")
+    rep.rule("C07-R8", "= C04-R5b: a heading's or item's text is a line with exactly one owner (Arena::add_line stores and returns a freshly drawn id on every exit): shared lines are blanked "
+             "when ANOTHER note is re-read, and the outline of this note comes out with empty headings.")
+    from . import arena
+    arena.rule_fresh_ids(facts, rep, "C07-R8")
